@@ -95,7 +95,13 @@ func (rl *TokenBucketRateLimiter) refillTokens(b *bucket) {
 	tokensToAdd := int(elapsed / rl.refillRate)
 
 	if tokensToAdd > 0 {
-		b.tokens += tokensToAdd
+		// (compare before adding: with a burst size near the largest integer the sum would
+		// wrap around to a negative count and the client would be refused for good)
+		if tokensToAdd > rl.maxTokens-b.tokens {
+			b.tokens = rl.maxTokens
+		} else {
+			b.tokens += tokensToAdd
+		}
 		if b.tokens > rl.maxTokens {
 			b.tokens = rl.maxTokens
 		}
@@ -128,7 +134,10 @@ func (rl *TokenBucketRateLimiter) cleanup() {
 		// hour AND refilled to the brim in that time (a new bucket starts full). With a slow
 		// refill an hour does not bring a spent bucket back, and forgetting it would hand the
 		// client a second full burst
-		refilled := b.tokens + int(now.Sub(b.lastRefill)/rl.refillRate)
+		refilled := rl.maxTokens
+		if due := int(now.Sub(b.lastRefill) / rl.refillRate); due <= rl.maxTokens-b.tokens {
+			refilled = b.tokens + due // (compared before adding, like in refillTokens)
+		}
 		shouldDelete := b.lastRefill.Before(cutoff) && refilled >= rl.maxTokens
 		if shouldDelete {
 			// Delete while holding the bucket lock and mark it, so a concurrent
